@@ -1,13 +1,15 @@
 #!/usr/bin/env python3
 """Copies confirmed seeded changes from /tmp/seed/out into /verif/seeded/<prop>-<k>/ with a meta.json."""
 import json, os, shutil, glob, re, sys
-for vf in sorted(glob.glob("/tmp/seed/val/*.json")):
+ROOT = os.environ.get("SEED_ROOT", "/tmp/seed")
+TAG = os.environ.get("SEED_TAG", "")
+for vf in sorted(glob.glob(f"{ROOT}/val/*.json")):
     v = json.load(open(vf))
     if not v.get("confirmed"):
         continue
     pid, k = v["id"], v["k"]
-    src = f"/tmp/seed/out/{pid}/{k}"
-    dst = f"/verif/seeded/{pid}-{k}"
+    src = f"{ROOT}/out/{pid}/{k}"
+    dst = f"/verif/seeded/{pid}-{TAG}{k}"
     if os.path.exists(os.path.join(dst, "meta.json")):
         continue
     os.makedirs(dst, exist_ok=True)
@@ -20,7 +22,7 @@ for vf in sorted(glob.glob("/tmp/seed/val/*.json")):
     needs = (m.group(2).strip().replace("\n", " ")[:500] if m else "")
     files = sorted({l[6:].strip() for l in open(os.path.join(src, "patch.diff")) if l.startswith("+++ b/")})
     meta = {
-        "id": f"{pid}-{k}", "breaks_property": pid, "source": "independent sub-agent given only the property text and a scratch worktree",
+        "id": f"{pid}-{TAG}{k}", "breaks_property": pid, "source": "independent sub-agent given only the property text and a scratch worktree",
         "files_changed": files, "summary": first, "needs_to_manifest": needs,
         "confirmed_by": {
             "procedure": "tools/validate_seed.py in a scratch worktree of /repo HEAD: demo without patch, `cargo test --workspace --no-fail-fast --offline` with patch, demo with patch",
